@@ -299,7 +299,6 @@ func firstN(s []string, n int) []string {
 	return s
 }
 
-
 // tailBuf keeps the last max bytes written to it.
 type tailBuf struct {
 	mu  sync.Mutex
